@@ -20,7 +20,10 @@ size_t wrap_live(void);
 size_t wrap_block_size(void *);
 uint64_t wrap_block_ordinal(void *);
 
-#define LIB(stmt) do { errno = 0; wrap_active = 1; stmt; wrap_active = 0; } while (0)
+/* errno on entry is whatever the surrounding program left there (never 0 here): the headers say the
+ * functions "return NULL or (int)(-1) on error and set errno", so a reported failure must come with
+ * an errno of its own and a success may not depend on the value found. */
+#define LIB(stmt) do { errno = EDOM; wrap_active = 1; stmt; wrap_active = 0; } while (0)
 
 /* ---- three growing text sections ---- */
 struct sec { char * s; size_t len, cap; int items; };
@@ -184,7 +187,7 @@ run_ea(char ** ops, int nops)
 			int rc;
 			LIB(rc = elasticarray_append(EA, d, nrec, reclen));
 			sec_rc(&obs, rc == 0);
-			free(d);
+			drv_scribble_free(d, dlen);	/* appended = copied: the source is the caller's again */
 		} else if (strcmp(f[0], "shr") == 0 && nf == 3) {
 			LIB(elasticarray_shrink(EA, hexnum(f[1]), hexnum(f[2])));
 			sec_str(&obs, "unit");
@@ -205,7 +208,7 @@ run_ea(char ** ops, int nops)
 		} else if (strcmp(f[0], "size") == 0 && nf == 2) {
 			sec_str(&obs, "sz"); sec_u64(&obs, elasticarray_getsize(EA, hexnum(f[1])));
 		} else if (strcmp(f[0], "exp") == 0 && nf == 2) {
-			void * buf = NULL; size_t nrec = 0, sz = elasticarray_getsize(EA, 1);
+			void * buf = (void *)(uintptr_t)0x5a5a5a5a5a5aULL; size_t nrec = 0xa5a5a5a5u, sz = elasticarray_getsize(EA, 1);	/* outputs start as junk */
 			int rc;
 			LIB(rc = elasticarray_export(EA, &buf, &nrec, hexnum(f[1])));
 			if (rc == 0) {
@@ -214,7 +217,7 @@ run_ea(char ** ops, int nops)
 				EA = NULL;
 			} else { sec_str(&obs, "exp-1:"); sec_str(&obs, errname()); }
 		} else if (strcmp(f[0], "dup") == 0 && nf == 2) {
-			void * buf = NULL; size_t nrec = 0, sz = elasticarray_getsize(EA, 1);
+			void * buf = (void *)(uintptr_t)0x5a5a5a5a5a5aULL; size_t nrec = 0xa5a5a5a5u, sz = elasticarray_getsize(EA, 1);	/* outputs start as junk */
 			int rc;
 			LIB(rc = elasticarray_exportdup(EA, &buf, &nrec, hexnum(f[1])));
 			if (rc == 0) {
@@ -274,7 +277,7 @@ run_eq(char ** ops, int nops)
 			int rc;
 			LIB(rc = elasticqueue_add(EQ, d));
 			sec_rc(&obs, rc == 0);
-			free(d);
+			drv_scribble_free(d, dlen);
 		} else if (strcmp(f[0], "del") == 0) {
 			LIB(elasticqueue_delete(EQ));
 			sec_str(&obs, "unit");
